@@ -40,7 +40,7 @@ def regenerate(run):
 
 RULE = ("per case: an interface DAG (<= 7 interfaces + Interface; chains, diamonds, explicit/implicit root, "
         "inconsistent orders), 1-3 classes with declarations, 4-6 operand declarations built from argument trees of "
-        "depth <= 3 (tuples, lists, inline Declarations, references to earlier Declarations, implementedBy(cls) leaves "
+        "depth <= 3 (tuples, lists, one-shot iterables (generator / iter() / map) at any depth, inline Declarations, references to earlier Declarations, implementedBy(cls) leaves "
         "and operands), all ordered pairs for - and +; a case is non-trivial when some + put an interface in front "
         "and some - removed a strict sub-interface; distinct = distinct (sizes, feature flags) signature")
 TRUSTED_BASE = ["Model/Ro.v as the transcription of ro.py / _calculate_sro (validated here through flattened() and "
@@ -78,6 +78,11 @@ def _gen_ifaces(rng, n):
     return ifaces
 
 
+# how the driver renders a Seq node: tuples / lists, and ONE-SHOT iterables (generator expression,
+# iter(list), map object) that can be traversed only once
+SEQ_KINDS = ["tuple", "list", "tuple", "list", "gen", "iter", "map"]
+
+
 def _gen_tree(rng, depth, n, class_nodes, ndecl):
     r = rng.random()
     if depth <= 0 or r < 0.5:
@@ -86,7 +91,7 @@ def _gen_tree(rng, depth, n, class_nodes, ndecl):
         return {"l": rng.randrange(0, n + 1) if rng.random() < 0.08 else rng.randrange(1, n + 1)}
     if r < 0.75:
         return {"s": [_gen_tree(rng, depth - 1, n, class_nodes, ndecl) for _ in range(rng.choice([0, 1, 2, 2, 3]))],
-                "t": rng.choice(["tuple", "list"])}
+                "t": rng.choice(SEQ_KINDS)}
     if r < 0.9 or not ndecl:
         return {"d": [_gen_tree(rng, depth - 1, n, class_nodes, ndecl) for _ in range(rng.choice([0, 1, 2, 2, 3]))]}
     return {"r": rng.randrange(ndecl)}
@@ -101,8 +106,13 @@ def _gen_case(rng, tier):
         prev = [n + 2 + j for j in range(k)]
         bs = sorted(rng.sample(prev, rng.choice([0, 1, 1, min(2, len(prev))])), reverse=True)
         # listing the younger class first is always a valid Python MRO here
-        decl = [rng.randrange(1, n + 1) for _ in range(rng.choice([0, 1, 1, 2]))]
-        classes.append({"bases": bs, "decl": decl})
+        if bs or rng.random() < 0.3:
+            decl = [rng.randrange(1, n + 1) for _ in range(rng.choice([0, 1, 1, 2]))]
+            classes.append({"bases": bs, "decl": decl})
+        else:
+            # declared through nested / one-shot iterable arguments (no class-specification leaves, no references)
+            classes.append({"bases": [], "decl": [], "via": rng.choice(["implementer", "classImplements"]),
+                            "dtrees": [_gen_tree(rng, 2, n, [], 0) for _ in range(rng.choice([1, 1, 2, 3]))]})
     class_nodes = [n + 2 + k for k in range(len(classes))]
     nd = rng.choice([4, 5, 6]) if tier == "quick" else rng.choice([5, 6, 7])
     decls = []
@@ -148,6 +158,22 @@ def _fixed_cases():
                   "radd": [4, 1, 2, 3, 5, 0], "cls": 9,
                   "ops": [["also", [leaf(4), leaf(5)]], ["nolonger", 3], ["directly", [leaf(8), leaf(3)]],
                           ["also", [leaf(4)]], ["nolonger", 1]]})
+    # one-shot iterables (generator / iter() / map) as argument sequences, at several depths, in
+    # Declaration(...), implementer / classImplements and the instance functions
+    seq = lambda kind, *xs: {"s": list(xs), "t": kind}
+    cases.append({"ifaces": ch,
+                  "classes": [{"bases": [], "decl": []},
+                              {"bases": [], "decl": [], "via": "classImplements", "dtrees": [seq("map", leaf(2), leaf(4))]},
+                              {"bases": [], "decl": [], "via": "implementer",
+                               "dtrees": [leaf(4), seq("gen", leaf(1), seq("iter", leaf(3)))]}],
+                  "decls": [{"args": [leaf(3), seq("gen", leaf(2), leaf(1)), leaf(4)]},
+                            {"args": [seq("iter", leaf(2), seq("tuple", leaf(3)), leaf(4))]},
+                            {"args": [seq("map", leaf(1), leaf(2))]},
+                            {"args": [seq("list", seq("gen", leaf(4), seq("map", leaf(1))), leaf(2))]},
+                            {"spec": 7}, {"spec": 8}],
+                  "radd": [1, 1, 3, 3, 1, 2], "cls": 6,
+                  "ops": [["also", [seq("gen", leaf(1), leaf(2))]], ["directly", [seq("iter", leaf(3), leaf(4))]],
+                          ["also", [seq("map", leaf(1), seq("gen", leaf(2)))]], ["nolonger", 1]]})
     return cases
 
 
@@ -182,7 +208,7 @@ def _tree(t, decls):
     return "(TDecl %s)" % C.clist([_tree(x, decls) for x in d["args"]])
 
 
-FAIL_TERM = "(mkCase [] [] [] [] [] [] [] [] [] false false 0 [] [])"
+FAIL_TERM = "(mkCase [] [] [] [] [] [] [] [] [] false false [] 0 [] [])"
 
 
 def coq_case(case, obs, mode):
@@ -206,13 +232,16 @@ def coq_case(case, obs, mode):
     dterms = ["(OSpec %d)" % d["spec"] if "spec" in d else "(OArgs %s)" % C.clist([_tree(x, decls) for x in d["args"]])
               for d in decls]
     cont = ["None" if isinstance(r, dict) else "(Some %s)" % C.clist([C.cbool(b) for b in r]) for r in obs["contains"]]
-    return "(mkCase %s %s %s %s %s %s %s %s %s %s %s %d %s %s)" % (
+    n = len(case["ifaces"])
+    cdecl = C.clist(["(%d, %s)" % (n + 2 + k, C.clist([_tree(x, decls) for x in cd["dtrees"]]))
+                     for k, cd in enumerate(case["classes"]) if cd.get("dtrees") is not None and not cd["bases"]])
+    return "(mkCase %s %s %s %s %s %s %s %s %s %s %s %s %d %s %s)" % (
         C.clist(["(%d, %s)" % (k, _nl(bs)) for k, bs in obs["graph"]]), _nl(obs["ifs"]), C.clist(dterms),
         C.clist([_obs(o) for o in obs["iter"]]), C.clist(cont), C.clist([_obs(o) for o in obs["flat"]]),
         C.clist([C.clist([_obs(o) for o in row]) for row in obs["sub"]]),
         C.clist([C.clist([_obs(o) for o in row]) for row in obs["add"]]),
         C.clist(["(%d, %s)" % (x, _obs(o)) for x, o in zip(case["radd"], obs["radd"])]),
-        C.cbool(obs["unchanged"]), C.cbool(obs["bases_ok"]), case["cls"], C.clist(ops), C.clist(inst))
+        C.cbool(obs["unchanged"]), C.cbool(obs["bases_ok"]), cdecl, case["cls"], C.clist(ops), C.clist(inst))
 
 
 # --------------------------------------------------------------------------- coverage bookkeeping
@@ -302,7 +331,16 @@ def _py_tree(t):
         return "N[%d]" % t["l"]
     if "s" in t:
         inner = ", ".join(_py_tree(x) for x in t["s"])
-        return "[%s]" % inner if t.get("t") == "list" else "(%s%s)" % (inner, "," if len(t["s"]) == 1 else "")
+        kind = t.get("t")
+        if kind == "list":
+            return "[%s]" % inner
+        if kind == "gen":
+            return "(v for v in [%s])" % inner
+        if kind == "iter":
+            return "iter([%s])" % inner
+        if kind == "map":
+            return "map(lambda v: v, [%s])" % inner
+        return "(%s%s)" % (inner, "," if len(t["s"]) == 1 else "")
     if "d" in t:
         return "Declaration(%s)" % ", ".join(_py_tree(x) for x in t["d"])
     return "D[%d]" % t["r"]
@@ -319,7 +357,13 @@ def replay_text(case, obs, mode):
     for k, cd in enumerate(case["classes"]):
         node = n + 2 + k
         L.append("K[%d] = type('K%d', (%s) or (object,), {})" % (node, k, "".join("K[%d], " % b for b in cd["bases"])))
-        if cd["decl"]:
+        if cd.get("dtrees") is not None:
+            args = ", ".join(_py_tree(x) for x in cd["dtrees"])
+            if cd.get("via") == "classImplements":
+                L.append("classImplements(K[%d], %s)" % (node, args))
+            elif cd["dtrees"]:
+                L.append("K[%d] = implementer(%s)(K[%d])" % (node, args, node))
+        elif cd["decl"]:
             L.append("classImplements(K[%d], %s)" % (node, ", ".join("N[%d]" % x for x in cd["decl"])))
         L.append("N[%d] = implementedBy(K[%d])" % (node, node))
     L.append("D = []")
